@@ -498,6 +498,11 @@ func (e Engine) Run(t *simrt.Tape, c simrt.Case, x *simrt.Ctx) *simrt.Result {
 				}
 			}
 		}
+		if len(bad) == 0 {
+			// every emitted package compiles on its own: the driver does not fit the emitted API
+			// (harness trouble, exit 2), not a property violation
+			panic("the driver does not compile against the emitted packages (emitted API changed?):\n" + firstErr)
+		}
 		res.Evals += len(ems)
 		res.Violation = &simrt.Violation{Class: "emitted_package_does_not_compile", Message: fmt.Sprintf("%d of %d emitted packages do not compile (%v); first error:\n%s", len(bad), len(ems), bad, firstErr),
 			Detail: map[string]any{"first_specification": ems[0].text}}
